@@ -104,6 +104,15 @@ let get_fs r : (coq_N list * Reader.funit) list =
     | "json" -> let t = get_kvs r in (p, Reader.FJson t)
     | t -> raise (Bad ("funit:" ^ t)))
 
+let rec get_elem r : Xml.elem =
+  let t = next r in
+  if t <> "E" then raise (Bad ("elem:" ^ t)) else
+  let tag = get_str r in
+  let attrs = get_list r (fun r -> let a = get_str r in let b = get_str r in (a, b)) in
+  let text = get_opt r get_str in
+  let kids = get_list r get_elem in
+  Xml.Elem (tag, attrs, text, kids)
+
 (* ---- printer ------------------------------------------------------------------------------ *)
 let b = Buffer.create 65536
 let sp () = Buffer.add_char b ' '
@@ -142,6 +151,11 @@ let put_sdict (s : SDict.sdict) =
   put_tab put_str s.SDict.sd_bc; sp ();
   put_tab (fun ((a, b), c) -> put_str a; sp (); put_str b; sp (); put_str c) s.SDict.sd_inc; sp ();
   put_tab (fun (a, b) -> put_str a; sp (); put_str b) s.SDict.sd_expr
+
+let rec put_elem (e : Xml.elem) =
+  match e with Xml.Elem (tag, attrs, text, kids) ->
+    put "E "; put_str tag; sp (); put_list (fun (a, b) -> put_str a; sp (); put_str b) attrs; sp ();
+    put_opt put_str text; sp (); put_list put_elem kids
 
 (* ---- dispatch ----------------------------------------------------------------------------- *)
 let run_op (op : string) (r : rd) : unit =
@@ -208,6 +222,9 @@ let run_op (op : string) (r : rd) : unit =
                        let d = Paths.include_directive_text rel in put_str d; sp (); put_opt put_str (Paths.directive_name d)
   | "write_text" -> let foam = get_bool r in let p = get_str r in let ex = get_opt r get_str in let ap = get_bool r in
                     let d = get_kvs r in put_res put_str (Reader.write_text foam p ex ap d)
+  | "xml_parse" -> let nb = get_bool r in let n = get_int r in let e = get_elem r in
+                   let (d, c) = Xml.xml_parse nb e n in put_tree (Value.Dict d); sp (); put_int c
+  | "xml_populate" -> let tag = get_str r in let t = get_tree r in put_elem (Xml.populate tag t)
   | _ -> raise (Bad ("op:" ^ op))
 
 let () =
